@@ -73,12 +73,17 @@ class PythonToIrCompiler:
             for name, signature in imports.items():
                 self.gen_import(name, signature)
 
+        # Declare all functions first, so that a function can call a
+        # function which is defined later in the module:
         for df in x.body:
-            self.logger.debug("Processing %s", df)
             if isinstance(df, ast.FunctionDef):
-                self.gen_function(df)
+                self.declare_function(df)
             else:
                 self.not_impl(df)
+
+        for df in x.body:
+            self.logger.debug("Processing %s", df)
+            self.gen_function(df)
 
         mod = self.builder.module
         irutils.verify_module(mod)
@@ -109,10 +114,8 @@ class PythonToIrCompiler:
         self.builder.module.add_external(ir_function)
         self.function_map[name] = ir_function, return_type, arg_types
 
-    def gen_function(self, df):
-        """Transform a python function into an IR-function"""
-        self.local_map = {}
-
+    def declare_function(self, df):
+        """Create the IR-function for a python function and register it"""
         function_name = df.name
         binding = ir.Binding.GLOBAL
         dbg_int = debuginfo.DebugBaseType("int", 8, 1)
@@ -142,9 +145,6 @@ class PythonToIrCompiler:
         self.function_map[function_name] = ir_function, return_type, arg_types
 
         self.logger.debug("Created function %s", ir_function)
-        self.builder.block_number = 0
-        self.builder.set_function(ir_function)
-
         dfi = debuginfo.DebugFunction(
             ir_function.name,
             SourceLocation("foo.py", 1, 1, 1),
@@ -152,6 +152,13 @@ class PythonToIrCompiler:
             dbg_args,
         )
         self.debug_db.enter(ir_function, dfi)
+
+    def gen_function(self, df):
+        """Transform the body of a python function into IR-code"""
+        self.local_map = {}
+        ir_function, return_type, _ = self.function_map[df.name]
+        self.builder.block_number = 0
+        self.builder.set_function(ir_function)
 
         first_block = self.builder.new_block()
         self.builder.set_block(first_block)
